@@ -99,7 +99,7 @@ func (f *faultState) match(ci *CallInfo, after bool) *FaultSpec {
 		case "rollback-fail":
 			ok = ci.Name == "Rollback"
 		default:
-			ok = ci.Idx == s.At && (s.Call == "" || s.Call == ci.Name)
+			ok = (ci.Idx == s.At || (s.At < 0 && s.Call != "")) && (s.Call == "" || s.Call == ci.Name) // At < 0 with a name: the first call of that name
 		}
 		if ok {
 			f.done[i] = true
@@ -155,7 +155,7 @@ func (r *Run) installHooks() {
 			if f.done[i] || (s.Kind != "lost-ack" && s.Kind != "crash-after" && !inactiveRead) {
 				continue
 			}
-			if ci.Idx != s.At || (s.Call != "" && s.Call != ci.Name) {
+			if (ci.Idx != s.At && s.At >= 0) || (s.Call != "" && s.Call != ci.Name) || (s.At < 0 && s.Call == "") {
 				continue
 			}
 			if s.Kind == "lost-ack" && !(err == nil && ci.Write) {
